@@ -394,7 +394,9 @@ def replay(beh: List[Tuple[list, dict]], space: Space, seed: int, mirror: bool =
           elif want == 'ok' and _meta(ru[1]) != _meta(rc[1]):
             violate('proposal_metadata', before, dict(uninterrupted=_meta(ru[1]), recovered=_meta(rc[1])))
             diverged = True
-          elif U.steps != C.steps:
+          elif fam == 'evo' and U.steps != C.steps:
+            # (under Deduping the wrapped evolution's proposal counter, hence this step, is only comparable net of
+            # the proposals dropped as duplicates - see `lost` - and is not compared here)
             violate('operation_step', before, dict(uninterrupted=list(U.steps), recovered=list(C.steps)))
             diverged = True
         else:
